@@ -164,6 +164,59 @@ let snap_oracle (prop : string) (ops : op list) (obs : string list) : string =
       (match op with OStop | OSnap -> () | _ -> prev_stop := false)) ops obs;
   if !verdict <> "" then "fail " ^ !verdict else if !checks = 0 then "skip no-snapshot-checked" else "pass"
 
+(* ---- C16: documented names, listing, symlink ---- *)
+let link_of_snapshot (o : string) : string =
+  try
+    let i = String.index o '}' in
+    let rest = String.sub o (i + 1) (String.length o - i - 1) in   (* link=..;errs=.. *)
+    let j = String.index rest ';' in
+    String.sub rest 5 (j - 5)
+  with _ -> "~"
+
+let c16_oracle (ops : op list) (obs : string list) : string =
+  if List.length ops <> List.length obs then "fail observation-shape" else
+  let cfg = ref None and active = ref false and last_snap = ref None in
+  let verdict = ref "" and checks = ref 0 in
+  let fail m = if !verdict = "" then verdict := m in
+  List.iter2 (fun op ob ->
+      match op with
+      | OStart c -> cfg := Some c; active := false
+      | OReset c -> cfg := Some c; active := false
+      | OWrite _ | OPlain _ -> if ob = "r0" then active := true
+      | OStop -> cfg := None; active := false
+      | OSnap when is_snapshot ob ->
+        let snap = parse_snapshot ob in
+        last_snap := Some snap;
+        (match !cfg with
+         | Some c when not c.c_spec.fts ->
+           incr checks;
+           List.iter (fun ((nm, k), _) ->
+               if int_of_n k <= 2 && not (name_documented c [] nm) then
+                 fail ("file-not-named-as-documented " ^ hex_of_bytes nm)) snap;
+           if c.c_symlink && !active then begin
+             let l = link_of_snapshot ob in
+             match current_name c snap with
+             | Some cur -> if l <> hex_of_bytes cur then fail (Printf.sprintf "symlink-does-not-point-to-the-current-file link=%s current=%s" l (hex_of_bytes cur))
+             | None -> ()
+           end
+         | _ -> ())
+      | OQuery sel ->
+        (match !cfg, !last_snap with
+         | Some c, Some snap when not c.c_spec.fts ->
+           incr checks;
+           if String.length ob < 3 || ob.[0] <> 'l' then fail "listing-observation"
+           else if ob.[1] <> '0' then fail "listing-failed"
+           else begin
+             let inner = String.sub ob 3 (String.length ob - 4) in
+             let names = if inner = "" then [] else List.map bytes_of_hex (split_on ',' inner) in
+             if c.c_rot <> None && not (oracle_listing sel c snap names) then
+               fail (Printf.sprintf "listing-differs-from-the-existing-selected-files got=[%s] expected=[%s]" inner
+                       (String.concat "," (List.map hex_of_bytes (expected_listing sel c snap))))
+           end
+         | _ -> ())
+      | _ -> ()) ops obs;
+  if !verdict <> "" then "fail " ^ !verdict else if !checks = 0 then "skip nothing-checked" else "pass"
+
 let flw_oracle (prop : string) (case_toks : string list) (obs : string list) : string =
   let (pre, ops) = split_at_semicolon [] case_toks in
   let ann = annotations pre in
@@ -171,6 +224,7 @@ let flw_oracle (prop : string) (case_toks : string list) (obs : string list) : s
   (* leading external creations (the start state) are allowed before B *)
   let rec strip = function (OExtCreate _ | OExtMkdir _) :: r -> strip r | l -> l in
   if prop = "C06" || prop = "C07" || prop = "C18" then snap_oracle prop ops obs else
+  if prop = "C16" then c16_oracle ops obs else
   if prop = "C09" then
     (match last_snapshot obs, case_toks with
      | Some files, t0 :: off :: _ -> c09_oracle (int_of_string t0) (int_of_string off) ann ops files
@@ -197,4 +251,5 @@ let run_line (prop : string) (line : string) : string =
   let case = String.sub line 0 k and obs = String.sub line (k + 4) (String.length line - k - 4) in
   match split_on ' ' case with
   | _ :: "flw" :: rest -> flw_oracle prop rest (List.filter (fun s -> s <> "") (split_on ' ' obs))
+  | _ :: "tryfrom" :: _ -> if obs = "p0 rt1 b1 w1" then "pass" else "fail path-derived-spec-does-not-denote-the-path " ^ obs
   | _ -> "skip kind"
